@@ -349,6 +349,10 @@ func (w *C02) Run(t *rt.Tape, trace bool) *core.Result {
 	if !small && kind != OTRSA1024 && kind != OTRSA2048 {
 		opts.WideLast = 1100 // evaluator inputs spanning several OT-extension chunks
 	}
+	if !small && t.Choose(rt.SGen, 6) == 0 {
+		opts.MaxOutW = 300 // results of several machine words
+		res.Reach["circuit.wide-outputs"]++
+	}
 	circ := gen.Circuit(t, opts)
 	in := gen.Inputs(t, circ)
 	if w.Compiled != nil && !small && t.Choose(rt.SGen, 5) == 0 {
